@@ -1,4 +1,5 @@
 """C09 — results never depend on map iteration order."""
+import json
 from ..gens import *
 from . import c05
 
@@ -98,6 +99,27 @@ def gen(rng, tier):
             c["repeat"] = 8 if tier == "quick" else 24
             c["_tag"] = "order/refs-" + c["_tag"]
             yield c
+    # merges whose source holds references (to objects, lists and scalars of the source) over targets that hold containers
+    # or scalars under the same names: the reference is resolved in the source, whatever has been merged so far
+    mrng = rng.fork("mergerefs")
+    vo = [opt("PathSep", "."), opt("VarExp")]
+    for _ in range(120 if tier == "quick" else 1200):
+        names = ["a", "b", "c", "d"]
+        def obj(): return M([(k, U(1 + mrng.below(9))) for k in mrng.shuffle(["x", "y", "z", "w"])[:1 + mrng.below(3)]])
+        def lst(): return A([U(mrng.below(9)) for _ in range(1 + mrng.below(3))])
+        tgt = M([(k, mrng.pick([obj, obj, lst, lambda: U(5), lambda: S("txt")])()) for k in names[:2 + mrng.below(3)]])
+        srcs = []
+        plain = [k for k in names if mrng.chance(0.7)] or ["b"]
+        for k in plain:
+            srcs.append((k, mrng.pick([obj, obj, lst, lambda: U(7)])()))
+        for k in names:
+            if k not in plain or mrng.chance(0.3):
+                ref = mrng.pick(plain)
+                if ref != k:
+                    srcs = [e for e in srcs if e[0] != k] + [(k, S(mrng.pick(["${%s}", "${%s}", "pre-${%s}"]) % ref))]
+        pol = mrng.pick([[], [], [opt("Append")], [opt("Prepend")], [opt("Replace")]])
+        yield {"k": "mergerep", "a": tgt, "optsA": vo, "steps": [{"b": M(mrng.shuffle(srcs)), "opts": vo + pol}], "ropts": vo, "repeat": rep,
+               "_tag": "order/merge-refs", "_nt": True, "_sig": "mergerefs|%s|%d|%d" % (pol[0]["o"] if pol else "", len(tgt["m"]), len(srcs))}
     for c in c05.gen(rng.fork("c05"), "quick"):
         if rng.chance(0.4 if tier == "quick" else 1.0):
             c["repeat"] = rep
@@ -107,7 +129,21 @@ def gen(rng, tier):
 
 def normalize_result(case, res):
     from . import c08
+    if case.get("k") == "mergerep":
+        return {"unmodelled": True}
     return c08.normalize_result(case, res)
+
+
+def oracle(case, impl, model):
+    if case.get("k") != "mergerep" or not isinstance(impl, dict):
+        return None
+    if "panic" in impl or "fatal" in impl:
+        return (False, "merge crashed: " + str(impl)[:200])
+    if "expectFirst" in case and impl.get("first") != case["expectFirst"]:
+        return (False, "merge result %s, expected %s" % (json.dumps(impl.get("first"))[:300], json.dumps(case["expectFirst"])[:300]))
+    if impl.get("outcomes", 1) > 1:
+        return (False, "%d different outcomes for one merge of one input, depending on map iteration order: %s" % (impl["outcomes"], " | ".join(impl.get("two", []))[:500]))
+    return (True, "")
 
 
 def nontrivial(case, impl):
